@@ -13,6 +13,7 @@ import ast
 import copy
 import json
 import os
+import re
 import shutil
 import tempfile
 
@@ -60,6 +61,10 @@ OUTPUT_SRCS = [
     "def keep(a, s='q', b=3, *args, p=0.5, **kw):\n    '''doc'''\n    return s\n",
     # positional-only parameters (the default slot arithmetic counts args.args only)
     "def keep(a, /, b=1, x=2, s=4):\n    return a\n\n\nclass P(object):\n    def keep(self, /, b=1, x=2):\n        return b\n",
+    # string literals whose value is the name of a target or of a sibling, in front of it (annotate_ancestry gives a literal
+    # the location <last named node> + [value], which is the location of the attribute / parameter of that name)
+    "class A(object):\n    'x'\n    alias: str = 'x'\n    x: str = 'old'\n    s: int = 1\n\n\nNAMES = ['x', 's', 'alias']\n",
+    "def keep(a, x=1, b='x', s='a'):\n    return 'x'\n",
 ]
 INPUT_PARAMS = ["In.x", "In.s", "In.e", "src.p", "src.q"]
 EVAL_PARAMS = ["LIT", "VERBOSE", "MODES", "PAIR"]
@@ -237,6 +242,22 @@ def structural_lookup(run):
                and len(singles) == 1 and ast.unparse(singles[0].test) == "len(it) > 1" and ast.unparse(singles[0].orelse) == "set_value(it[0])")
         detail2 = ("Literal members are list(map(set_value, it)) when len(it) > 1, else set_value(it[0]): one member per element of the evaluated value, in order" if ok2
                    else "it2literal builds the members as: %s" % [ast.unparse(k.value)[:80] for k in kws])
+    # RewriteAtQuery.generic_visit hands out the replacement at most once, and never in place of a literal: the replacing
+    # `return self.replacement_node` is guarded by `not self.replaced`, by `node._location == self.search` and by a test that
+    # excludes Constant nodes (a literal carries the location of the attribute / parameter named like its value)
+    gv, _s, _p = extract.find_def("cdd.shared.ast_utils", "RewriteAtQuery.generic_visit")
+    ok3, detail3 = None, "RewriteAtQuery.generic_visit not found"
+    if gv is not None:
+        rets = [n for n in ast.walk(gv) if isinstance(n, ast.Return) and n.value is not None and ast.unparse(n.value) == "self.replacement_node"]
+        guards = [i for i in ast.walk(gv) if isinstance(i, ast.If) and any(r in list(ast.walk(b_)) for r in rets for b_ in i.body)]
+        conj = [ast.unparse(v) for g in guards for v in (g.test.values if isinstance(g.test, ast.BoolOp) and isinstance(g.test.op, ast.And) else [g.test])]
+        excl = [c for c in conj if re.fullmatch(r"not isinstance\(node, (\(.*\bConstant\b.*\)|Constant)\)", c) or re.fullmatch(r"isinstance\(node, \((?!.*\b(Constant|Str|expr|AST)\b).*\)\)", c)]
+        ok3 = len(rets) == 1 and "not self.replaced" in conj and "node._location == self.search" in conj and bool(excl)
+        detail3 = ("the replacement is returned once, under `not self.replaced and %s and ... node._location == self.search`" % excl[0] if ok3
+                   else "guards of `return self.replacement_node`: %s" % conj)
+    run.add("C13/structural/generic_visit/never-replaces-a-literal", UNDECIDED if ok3 is None else (PROVED if ok3 else REFUTED), "rule-engine", detail=detail3)
+    if ok3 is False:
+        out.append(("C13/structural/generic_visit/never-replaces-a-literal", detail3))
     run.add("C13/structural/it2literal/one-member-per-element-in-order", UNDECIDED if ok2 is None else (PROVED if ok2 else REFUTED), "rule-engine", detail=detail2)
     if ok2 is False:
         out.append(("C13/structural/it2literal/one-member-per-element-in-order", detail2))
